@@ -12,14 +12,14 @@ import (
 func init() { register("C19", propC19) }
 
 type ringInfo struct {
-	T                            *types.Named
-	St                           *types.Struct
-	Ctor                         *ssa.Function
-	N, CUR, OLD, FULL, FR, ORD   string
-	fN, fCUR, fOLD, fFULL        int
-	fFR, fORD                    int
-	full, next                   *ssa.Function
-	methods                      map[string]*ssa.Function
+	T                          *types.Named
+	St                         *types.Struct
+	Ctor                       *ssa.Function
+	N, CUR, OLD, FULL, FR, ORD string
+	fN, fCUR, fOLD, fFULL      int
+	fFR, fORD                  int
+	full, next                 *ssa.Function
+	methods                    map[string]*ssa.Function
 }
 
 func ringLeaf(st *types.Struct, fi int) string {
